@@ -620,6 +620,7 @@ def run(ctx):
                 (["shared-mutable-caller-objects"] if case.get("shared_objects") else []) + \
                 (["int-typed-rewards-and-probabilities"] if case.get("int_types") else []) + \
                 (["n=nA"] if n == nA else []) + (["n=nO"] if n == nO else []) + \
+                (["action-labels-whose-set-order-differs-from-sorted-order(signed ints)"] if (case.get("labels") or {}).get("actions") == "signed" and nA >= 2 else []) + \
                 (["base-object-views-touched-first"] if case.get("touch_first") else []) + \
                 (["non-int-labels"] if set((case.get("labels") or {}).values()) - {"int"} else []) + \
                 (["msdm-order-differs-from-id-order"] if list(order[0]) + list(order[1]) + list(order[2]) != list(range(n)) + list(range(nA)) + list(range(nO)) else []) + \
